@@ -83,15 +83,24 @@ func (its *clientImpl) IsConnected() bool {
 }
 
 func (its *clientImpl) CreateDatatype(key string, typeOf model.TypeOfDatatype, handlers *Handlers) Datatype {
+	// (a refused creation returns a nil Counter / Map / List / Document: asserting on it would panic)
 	switch typeOf {
 	case model.TypeOfDatatype_COUNTER:
-		return its.CreateCounter(key, handlers).(Datatype)
+		if d := its.CreateCounter(key, handlers); d != nil {
+			return d.(Datatype)
+		}
 	case model.TypeOfDatatype_MAP:
-		return its.CreateMap(key, handlers).(Datatype)
+		if d := its.CreateMap(key, handlers); d != nil {
+			return d.(Datatype)
+		}
 	case model.TypeOfDatatype_LIST:
-		return its.CreateList(key, handlers).(Datatype)
+		if d := its.CreateList(key, handlers); d != nil {
+			return d.(Datatype)
+		}
 	case model.TypeOfDatatype_DOCUMENT:
-		return its.CreateDocument(key, handlers).(Datatype)
+		if d := its.CreateDocument(key, handlers); d != nil {
+			return d.(Datatype)
+		}
 	}
 	return nil
 }
@@ -212,8 +221,11 @@ func (its *clientImpl) subscribeOrCreateDatatype(
 	// TODO: this would be better go into datatypeManager
 	if its.datatypeManager != nil {
 		data, err := its.datatypeManager.ExistDatatype(key, typeOf)
-		if err != nil && handler != nil {
-			handler.errorHandler(nil, err)
+		if err != nil {
+			// the client already holds this key with another type: refused, whether or not there is a handler to tell
+			if handler != nil && handler.errorHandler != nil {
+				handler.errorHandler(nil, err)
+			}
 			return nil
 		}
 		if data != nil {
@@ -246,7 +258,7 @@ func (its *clientImpl) subscribeOrCreateDatatype(
 		}
 	}
 
-	if handler != nil && errs.Return() != nil {
+	if handler != nil && handler.errorHandler != nil && errs.Return() != nil {
 		handler.errorHandler(nil, errs.ToArray()...)
 	}
 	return datatype
